@@ -99,6 +99,30 @@ fn forms(marker: &[u8]) -> Vec<(String, Vec<u8>)> {
     v
 }
 
+/// The bytes the (synchronous) file logger appended since the previous call
+/// in this worker process: every history is scanned against the log lines
+/// written while it ran, not against the whole growing file again.
+fn new_log_bytes(logs_dir: &Path) -> Vec<(String, Vec<u8>)> {
+    use std::io::{Read, Seek, SeekFrom};
+    static OFFSETS: std::sync::OnceLock<Mutex<std::collections::HashMap<PathBuf, u64>>> = std::sync::OnceLock::new();
+    let mut offs = OFFSETS.get_or_init(Default::default).lock().unwrap();
+    let mut out = vec![];
+    for p in fsutil::walk_files(logs_dir) {
+        let from = offs.get(&p).copied().unwrap_or(0);
+        if let Ok(mut f) = std::fs::File::open(&p) {
+            let len = f.metadata().map(|m| m.len()).unwrap_or(0);
+            if len > from && f.seek(SeekFrom::Start(from)).is_ok() {
+                let mut b = Vec::with_capacity((len - from) as usize);
+                if f.read_to_end(&mut b).is_ok() {
+                    offs.insert(p.clone(), from + b.len() as u64);
+                    out.push((format!("logs/{}", p.file_name().unwrap().to_string_lossy()), b));
+                }
+            }
+        }
+    }
+    out
+}
+
 struct Tee {
     origin: Origin,
     captured: Arc<Mutex<Vec<u8>>>,
@@ -287,11 +311,7 @@ async fn run_kind(kind: &str, backend: Backend, work: &Path, logs_dir: &Path) ->
         std::fs::write(work.join("client").join("planted-control.txt"), format!("xx{}yy", String::from_utf8_lossy(&markers[0].1)))?;
         // collect haystacks
         let mut hay: Vec<(String, Vec<u8>)> = vec![("wire:tee".to_string(), wire.clone())];
-        for p in fsutil::walk_files(logs_dir) {
-            if let Ok(b) = std::fs::read(&p) {
-                hay.push((format!("logs/{}", p.file_name().unwrap().to_string_lossy()), b));
-            }
-        }
+        hay.extend(new_log_bytes(logs_dir));
         for root in ["client", "client2", "server"] {
             for p in fsutil::walk_files(&work.join(root)) {
                 if let Ok(b) = std::fs::read(&p) {
@@ -463,11 +483,7 @@ async fn run_pairing(backend: Backend, inverted: bool, work: &Path, logs_dir: &P
         let control_ok = memmem(&dump, m1.as_bytes()) && memmem(&dump2, m1.as_bytes());
         std::fs::write(work.join("client").join("planted-control.txt"), format!("xx{}yy", m1))?;
         let mut hay: Vec<(String, Vec<u8>)> = vec![("wire:tee".to_string(), wire.clone())];
-        for p in fsutil::walk_files(logs_dir) {
-            if let Ok(b) = std::fs::read(&p) {
-                hay.push((format!("logs/{}", p.file_name().unwrap().to_string_lossy()), b));
-            }
-        }
+        hay.extend(new_log_bytes(logs_dir));
         for root in ["client", "client2", "server"] {
             for p in fsutil::walk_files(&work.join(root)) {
                 if let Ok(b) = std::fs::read(&p) {
@@ -709,11 +725,7 @@ async fn run_histories(first: usize, backend: Backend, depth: usize, work: &Path
             let wire = tee.captured.lock().unwrap().clone();
             wire_bytes += wire.len() as u64;
             let mut hay: Vec<(String, Vec<u8>)> = vec![("wire:tee".to_string(), wire)];
-            for p in fsutil::walk_files(logs_dir) {
-                if let Ok(b) = std::fs::read(&p) {
-                    hay.push((format!("logs/{}", p.file_name().unwrap().to_string_lossy()), b));
-                }
-            }
+            hay.extend(new_log_bytes(logs_dir));
             for root in ["client", "server"] {
                 for p in fsutil::walk_files(&run.join(root)) {
                     if let Ok(b) = std::fs::read(&p) {
@@ -844,7 +856,7 @@ fn main() {
     }
     let mut run = Run::new("C03", "model_checking", &args);
     let mut opts = PoolOpts::default();
-    opts.item_timeout = std::time::Duration::from_secs(300);
+    opts.item_timeout = std::time::Duration::from_secs(args.tier.pick(600, 3600));
     let res = pool::run_stage("kinds", its.len(), &opts);
     let mut samples = vec![];
     let mut checks = 0u64;
